@@ -147,6 +147,15 @@ func main() {
 	os.Exit(code)
 }
 
+func hasSelectChoice(vals map[string]string) bool {
+	for k := range vals {
+		if strings.HasPrefix(k, "sel!") {
+			return true
+		}
+	}
+	return false
+}
+
 func envOr(k, d string) string {
 	if v := os.Getenv(k); v != "" {
 		return v
@@ -353,6 +362,21 @@ func checkProp(p *Prop, tier, onlyRun string, keepLogs, trace, validate bool) in
 				continue
 			}
 			out := gosym.RunReplay(dir, nil)
+			if !out.Reproduces(v.Ob) && r.UsedRand {
+				// environment draws the solver chose cannot be mapped back to a PRNG seed: look for
+				// a seed under which the native run shows the same failure (the solver's verdict
+				// is the decision; this only concretises the environment)
+				for salt := 1; salt <= 12 && !out.Reproduces(v.Ob); salt++ {
+					out = gosym.RunReplay(dir, []string{fmt.Sprintf("VERIF_RANDSALT=%d", salt)})
+				}
+			}
+			if !out.Reproduces(v.Ob) && r.Cfg.Sched && hasSelectChoice(v.Values) {
+				// a select with several ready cases: the schedule controller cannot force the Go
+				// runtime's pseudo-random pick, so the replay is repeated until the pick matches
+				for try := 0; try < 10 && !out.Reproduces(v.Ob); try++ {
+					out = gosym.RunReplay(dir, nil)
+				}
+			}
 			os.WriteFile(filepath.Join(dir, "output.txt"), []byte(out.Output), 0o644)
 			desc := fmt.Sprintf("%s %q at %s (run %s)", v.Ob.Kind, v.Ob.Label, v.Ob.Pos, r.Cfg.Name)
 			switch {
